@@ -408,10 +408,14 @@ fn rand_value(r: &mut Rng) -> String {
 }
 
 fn rand_key(r: &mut Rng) -> String {
-    match r.below(10) {
+    match r.below(11) {
         0..=2 => r.pick(U_KEYS).to_string(),
         3..=6 => crate::spell::gen_key(r),
         7 => r.pick(&TYPED_KEYS).to_string(),
+        10 => {
+            let k = r.pick(&TYPED_KEYS).to_string();
+            crate::spell::near_key(r, &k)
+        },
         8 => r.pick(&["checksum", "CHECKSUM", "CheckSum"]).to_string(),
         _ => mixed_string(r, 0, 5, 50),
     }
